@@ -1,8 +1,11 @@
 CFG = {
     "gen": [],
-    "props": ["EraVerif.Props.C03"],
+    "props": ["EraVerif.Props.C03", "EraVerif.Props.Epoch"],
     "required_theorems": ["effects_persist_before_send", "one_commit_per_view", "no_commit_at_or_below_timeout",
-                          "signed_views_monotone", "sent_covered_by_durable", "sent_covered_at_every_crash_point"],
+                          "signed_views_monotone", "sent_covered_by_durable", "sent_covered_at_every_crash_point",
+                          "slot_not_overwritten_before_persist", "restart_keeps_votes_of_current_epoch_partial",
+                          "restart_view_covers_signed_partial", "no_equivocation_across_epochs_partial",
+                          "restart_at_boundary_counterexample", "late_write_counterexample"],
     "technique": "Lean 4 inductive invariant over a crash/restart transition system built on the executable replica model "
                  "(effects applied one at a time, crash after any prefix) + differential run of the real replica with crash "
                  "injection at every durable write",
@@ -17,19 +20,55 @@ CFG = {
                   "k-th durable write, both outcomes, then restart from the store) under equivocating-leader scenarios, comparing "
                   "the ORDERED effect log (set_state calls and outbound messages in one sequence) and the state after restart "
                   "with the model; the equivocation clauses are also monitored directly on everything the real replica signed "
-                  "across all incarnations.",
+                  "across all incarnations. Epoch boundary (component `epoch`, Props/Epoch + harness cepoch): there is ONE durable "
+                  "replica-state slot per node, tagged with the epoch; StateMachine::start replaces a backup of an EARLIER epoch by the default state and stops on one of a LATER epoch; "
+                  "modelled: Config::run's start condition (the block before the epoch's first block PERSISTED), the teardown task, "
+                  "start's restore rule, backup_state, crash (slot + persisted blocks survive, queued blocks are lost), any number "
+                  "of epochs and instances. Proved for every reachable state of every event list: the slot holds a state of epoch "
+                  "e+1 only if the last block of e is persisted (no scheduling assumption, with or without fix a8b4c3e — this is what "
+                  "justifies the fix: start() of an instance that finds a LATER epoch's state stops). On the code with the fix, with "
+                  "the teardown scheduled in ANY way (the former prompt-teardown hypothesis is gone), under the one remaining "
+                  "assumption `Benign` (an instance that has been overtaken — a later epoch's instance wrote during its life — lands "
+                  "an in-flight write only while the later epochs' backups are still their view-0 bootstrap states): while e is the "
+                  "current epoch a (re)start of e resumes from e's latest backup (or from the default state if that backup is only "
+                  "the bootstrap one), everything signed in e is recorded by the state it resumes from, and over all lives and "
+                  "epochs the votes signed within an epoch are ordered (one commit per (epoch, view), none at or below a timed-out "
+                  "view, views never go back). `restart_at_boundary_counterexample`: before the fix the statements fail under the "
+                  "same assumption (the fix is load-bearing); `late_write_counterexample`: without `Benign` they fail on the fixed "
+                  "code too. Tied to the code: the real bft::Config::run for epochs e and e+1 on one node over a storage "
+                  "whose block writes can be stalled, crash = all tasks cancelled + a new EngineManager on the same storage, an "
+                  "equivocating leader after the restart.",
     "level_note": "Full for commit and timeout votes. Needs the explicit no-wrap side condition for commit/timeout vote views "
                   "(view + 1 < 2^64; at 2^64-1 ViewNumber::next wraps in the release profile). Outside the property, recorded for "
                   "maintainers: a leader PROPOSAL can be created before the view change is durable (proposer_sender.send precedes "
                   "backup_state in start_new_view), so a crashed leader may propose twice in a view; safety does not depend on it. "
-                  "Durability itself (the execution layer's set_state) is the harness' store.",
-    "harness": "c03",
-    "n": {"quick": 1000, "thorough": 30000},
+                  "Durability itself (the execution layer's set_state) is the harness' store. "
+                  "Across epochs PARTIAL in one respect: `Benign` is not enforced by the code — Config::run's teardown is a concurrent "
+                  "task, and when the last block of e gets persisted the replica of e (inside save_block) and the waiting instance of "
+                  "e+1 are woken by the same event, so the old replica's next backup_state can land after the new instance's first "
+                  "writes. Every run shows such late writes (`_stale_wrote`, tens per quick run), always over a bootstrap state, i.e. "
+                  "inside `Benign`; the monitor slot:late_write_over_votes watches the assumption on the real code. Outside it (the "
+                  "new instance has already voted when the old write lands: old task starved for several network round trips, or a "
+                  "storage that applies a write issued before the cancellation) two commit votes for one view are possible "
+                  "(`late_write_counterexample`, kernel-checked run of the model of the fixed code). Finding F13 (restart exactly at "
+                  "the boundary with a slow schedule provider; fixed by a8b4c3e) is a directed regression case of every run. "
+                  "Not modelled: the executor's choice of epochs to spawn, the schedule provider. In the "
+                  "run family durable writes of an instance whose epoch is already over are scheduling-dependent (tokio wake order, "
+                  "select! in ctx.wait) and therefore watched by the monitors only, not compared.",
+    "harness": ["c03", "cepoch"],
+    "scope": {"cepoch": {"oracle_only": "^(slot:|equivocation:)", "ignore_k": False}},
+    "n": {"quick": [1000, 3000], "thorough": [30000, 60000]},
     "rule": "adaptive replica scenarios as for C05, with a crash plan on 35% of the steps: crash at the 0th or 1st set_state call "
             "of the step, write applied or not, followed by restart from the store; proposals for the same view with different "
-            "payloads arrive around the crash. non-trivial = distinct op whose outcome class differs from the modal class",
+            "payloads arrive around the crash. non-trivial = distinct op whose outcome class differs from the modal class. "
+            "(second harness cepoch, scoped to the monitors slot:* / equivocation:* — K counts in full: the directed F13 case first; family run = real "
+            "Config::run of epochs 0 and 1 spawned as the executor does, the last block of epoch 0 finalized while storage is "
+            "stalled, then in rotation: crash before the write lands + restart + second proposal for the voted view; write lands, "
+            "epoch 1 goes on, crash mid-epoch + equivocating leader; late write, crash at the boundary, regular restart)",
     "trusted": ["hand-written replica model and crash system (Model/ReplicaSys.lean)", "harness store as the durable medium"],
-    "assumptions": ["the execution layer's set_state is atomic and durable when it returns"],
+    "assumptions": ["the execution layer's set_state is atomic and durable when it returns",
+                    "across epochs: `Benign` — a late write of an already overtaken instance lands only over bootstrap states (see level_note)",
+                    "the schedule provider answers from one strictly increasing activation table"],
     "explanation": "invariant proof on the model; ordered-effect correspondence with crash injection; equivocation monitors on "
                    "the real replica's signed messages over all incarnations",
 }
